@@ -13,7 +13,7 @@ Line protocol of `c13driver` (see checks/c13.py for the generator side).
       each `id` or `,`-separated ops  s.x.c | c.x.y | m.x.y.z | j.x.y.c | a.x.y.c | p.x.y.z
     → in=<fact>|…;out=<fact>|…;steps=<iterations>
   sparse <lat> <sched> <n> <nvals> <instrs> <init> <tabs>
-      lat ∈ bits<w>|cp|n5; instrs `kind:ops:refs[:pre:post];…`, kind ∈ phi|none|u<t>|b<t>|k<code>,
+      lat ∈ bits<w>|and<w>|cp|n5; instrs `kind:ops:refs[:pre:post];…`, kind ∈ phi|none|u<t>|b<t>|k<code>|s<v>,
       pre/post = constant mappings `v=c,…` the transfer returns before / after its own mapping
       (multi-mapping transfers; the model is `SparseM`)
     → val=<code>,…;steps=<iterations>
@@ -181,6 +181,7 @@ def denseCase (latS kS schedS nS edgesS entryS trsS : String) : Option String :=
 
 inductive Spec where
   | phi | none | un (t : Nat) | bin (t : Nat) | const (c : Nat)
+  | sum (v : Nat)   -- no own value (e.g. *ir.Return); maps value `v` to the merge of the operands' states
 
 def sparseLat (s : String) : Option (Lat Nat × Nat) :=
   if s = "cp" then some (flatLat, 10)
@@ -188,9 +189,12 @@ def sparseLat (s : String) : Option (Lat Nat × Nat) :=
   else if s.startsWith "bits" then do
     let w ← (s.drop 4).toString.toNat?
     if w ≤ 6 then some (bitsLat, 2 ^ w) else none
+  else if s.startsWith "and" then do
+    let w ← (s.drop 3).toString.toNat?
+    if 1 ≤ w ∧ w ≤ 6 then some (andBitsLat w, 2 ^ w) else none
   else none
 
-def parseSpec (size ntab : Nat) (s : String) : Option Spec :=
+def parseSpec (size ntab nvals : Nat) (s : String) : Option Spec :=
   if s = "phi" then some .phi
   else if s = "none" then some .none
   else if s.startsWith "u" then do
@@ -202,6 +206,9 @@ def parseSpec (size ntab : Nat) (s : String) : Option Spec :=
   else if s.startsWith "k" then do
     let c ← (s.drop 1).toString.toNat?
     if c < size then some (.const c) else none
+  else if s.startsWith "s" then do
+    let v ← (s.drop 1).toString.toNat?
+    if v < nvals then some (.sum v) else none
   else none
 
 def parseXMap (size nvals : Nat) (s : String) : Option (Nat × Nat) :=
@@ -220,7 +227,7 @@ structure Instr where
 
 def parseInstr (size ntab n nvals : Nat) (s : String) : Option Instr :=
   let go (k ops refs pre post : String) : Option Instr := do
-    let k ← parseSpec size ntab k
+    let k ← parseSpec size ntab nvals k
     let ops ← parseNats "," ops
     let refs ← parseNats "," refs
     let pre ← (splitList "," pre).mapM (parseXMap size nvals)
@@ -282,6 +289,7 @@ def sparseCase (latN schedS nS nvS instrS initS tabS : String) : Option String :
           | .un t => [(i, (tabA.getD t (false, [])).2.getD (ins.ops.foldl (fun d v => lat.merge d (val v)) lat.bot) 0)]
           | .bin t => [(i, (tabA.getD t (true, [])).2.getD (val (ins.ops.getD 0 0) * size + val (ins.ops.getD 1 0)) 0)]
           | .const c => [(i, c)]
+          | .sum v => [(v, ins.ops.foldl (fun d v => lat.merge d (val v)) lat.bot)]
           | _ => []
         ins.pre ++ own ++ ins.post }
   let val0 : Nat → Nat := fun v =>
